@@ -8,14 +8,14 @@ P=$1; S=$2; PKG=$3; RE=$4; SUF=${5:-$(basename $S)}
 export GOFLAGS=-mod=mod GOPROXY=off
 W=/tmp/seedchk-$$; git -C /repo worktree add -q --detach $W HEAD
 demo=$(ls $S/*_test.go | head -1)
+( cd $W && go test -vet=off -count=1 ./$PKG/ 2>&1 | grep -v "^--- \|^=== \|^    " | tail -3 >/tmp/seedchk-$$.pkgpre )
 mkdir -p $W/$PKG; cp $demo $W/$PKG/zvseed_demo_test.go
 ( cd $W && go test ${SEED_GOTESTFLAGS:-} -vet=off -count=1 -run "$RE" ./$PKG/ >/tmp/seedchk-$$.pre 2>&1 ); pre=$?
-( cd $W && go test -vet=off -count=1 ./$PKG/ 2>&1 | tail -3 >/tmp/seedchk-$$.pkgpre )
 ( cd $W && git apply $S/patch.diff ) || { echo "patch does not apply"; git -C /repo worktree remove --force $W; exit 2; }
 ( cd $W && go build ./... >/tmp/seedchk-$$.build 2>&1 ); build=$?
 ( cd $W && go test ${SEED_GOTESTFLAGS:-} -vet=off -count=1 -run "$RE" ./$PKG/ >/tmp/seedchk-$$.post 2>&1 ); post=$?
 rm $W/$PKG/zvseed_demo_test.go
-( cd $W && go test -vet=off -count=1 ./$PKG/ 2>&1 | tail -3 >/tmp/seedchk-$$.pkgpost )
+( cd $W && go test -vet=off -count=1 ./$PKG/ 2>&1 | grep -v "^--- \|^=== \|^    " | tail -3 >/tmp/seedchk-$$.pkgpost )
 pkgsame=no; diff <(sed 's/[0-9.]*s$//' /tmp/seedchk-$$.pkgpre) <(sed 's/[0-9.]*s$//' /tmp/seedchk-$$.pkgpost) >/dev/null && pkgsame=yes
 git -C /repo worktree remove --force $W
 echo "demo without patch: rc=$pre (want 0); with patch: rc=$post (want !=0); build rc=$build; package tests same before/after: $pkgsame"
